@@ -1,4 +1,9 @@
 
+(** val implb : bool -> bool -> bool **)
+
+let implb b1 b2 =
+  if b1 then b2 else true
+
 (** val negb : bool -> bool **)
 
 let negb = function
@@ -8,6 +13,12 @@ let negb = function
 type nat =
 | O
 | S of nat
+
+(** val option_map : ('a1 -> 'a2) -> 'a1 option -> 'a2 option **)
+
+let option_map f = function
+| Some a -> Some (f a)
+| None -> None
 
 (** val fst : ('a1 * 'a2) -> 'a1 **)
 
@@ -62,6 +73,11 @@ let rec sub n m =
             | O -> n
             | S l -> sub k l)
 
+(** val eqb : bool -> bool -> bool **)
+
+let eqb b1 b2 =
+  if b1 then b2 else if b2 then false else true
+
 module Nat =
  struct
   (** val eqb : nat -> nat -> bool **)
@@ -111,6 +127,12 @@ let rec nth_error l = function
            | [] -> None
            | _ :: l0 -> nth_error l0 n0)
 
+(** val concat : 'a1 list list -> 'a1 list **)
+
+let rec concat = function
+| [] -> []
+| x :: l0 -> app x (concat l0)
+
 (** val map : ('a1 -> 'a2) -> 'a1 list -> 'a2 list **)
 
 let rec map f = function
@@ -129,6 +151,12 @@ let rec fold_left f l a0 =
 let rec fold_right f a0 = function
 | [] -> a0
 | b :: t -> f b (fold_right f a0 t)
+
+(** val existsb : ('a1 -> bool) -> 'a1 list -> bool **)
+
+let rec existsb f = function
+| [] -> false
+| a :: l0 -> (||) (f a) (existsb f l0)
 
 (** val forallb : ('a1 -> bool) -> 'a1 list -> bool **)
 
@@ -161,6 +189,21 @@ let rec firstn n l =
              | [] -> []
              | a :: l0 -> a :: (firstn n0 l0))
 
+(** val skipn : nat -> 'a1 list -> 'a1 list **)
+
+let rec skipn n l =
+  match n with
+  | O -> l
+  | S n0 -> (match l with
+             | [] -> []
+             | _ :: l0 -> skipn n0 l0)
+
+(** val seq : nat -> nat -> nat list **)
+
+let rec seq start = function
+| O -> []
+| S len1 -> start :: (seq (S start) len1)
+
 (** val repeat : 'a1 -> nat -> 'a1 list **)
 
 let rec repeat x = function
@@ -192,17 +235,17 @@ module Pos =
     match x with
     | XI p ->
       (match y with
-       | XI q -> XO (add_carry p q)
-       | XO q -> XI (add p q)
+       | XI q0 -> XO (add_carry p q0)
+       | XO q0 -> XI (add p q0)
        | XH -> XO (succ p))
     | XO p ->
       (match y with
-       | XI q -> XI (add p q)
-       | XO q -> XO (add p q)
+       | XI q0 -> XI (add p q0)
+       | XO q0 -> XO (add p q0)
        | XH -> XI p)
     | XH -> (match y with
-             | XI q -> XO (succ q)
-             | XO q -> XI q
+             | XI q0 -> XO (succ q0)
+             | XO q0 -> XI q0
              | XH -> XO XH)
 
   (** val add_carry : positive -> positive -> positive **)
@@ -211,18 +254,18 @@ module Pos =
     match x with
     | XI p ->
       (match y with
-       | XI q -> XI (add_carry p q)
-       | XO q -> XO (add_carry p q)
+       | XI q0 -> XI (add_carry p q0)
+       | XO q0 -> XO (add_carry p q0)
        | XH -> XI (succ p))
     | XO p ->
       (match y with
-       | XI q -> XO (add_carry p q)
-       | XO q -> XI (add p q)
+       | XI q0 -> XO (add_carry p q0)
+       | XO q0 -> XI (add p q0)
        | XH -> XO (succ p))
     | XH ->
       (match y with
-       | XI q -> XI (succ q)
-       | XO q -> XO (succ q)
+       | XI q0 -> XI (succ q0)
+       | XO q0 -> XO (succ q0)
        | XH -> XI XH)
 
   (** val pred_double : positive -> positive **)
@@ -246,13 +289,13 @@ module Pos =
     match x with
     | XI p ->
       (match y with
-       | XI q -> compare_cont r p q
-       | XO q -> compare_cont Gt p q
+       | XI q0 -> compare_cont r p q0
+       | XO q0 -> compare_cont Gt p q0
        | XH -> Gt)
     | XO p ->
       (match y with
-       | XI q -> compare_cont Lt p q
-       | XO q -> compare_cont r p q
+       | XI q0 -> compare_cont Lt p q0
+       | XO q0 -> compare_cont r p q0
        | XH -> Gt)
     | XH -> (match y with
              | XH -> r
@@ -262,6 +305,20 @@ module Pos =
 
   let compare =
     compare_cont Eq
+
+  (** val eqb : positive -> positive -> bool **)
+
+  let rec eqb p q0 =
+    match p with
+    | XI p0 -> (match q0 with
+                | XI q1 -> eqb p0 q1
+                | _ -> false)
+    | XO p0 -> (match q0 with
+                | XO q1 -> eqb p0 q1
+                | _ -> false)
+    | XH -> (match q0 with
+             | XH -> true
+             | _ -> false)
 
   (** val iter_op : ('a1 -> 'a1 -> 'a1) -> positive -> 'a1 -> 'a1 **)
 
@@ -312,18 +369,18 @@ module Z =
     match x with
     | XI p ->
       (match y with
-       | XI q -> double (pos_sub p q)
-       | XO q -> succ_double (pos_sub p q)
+       | XI q0 -> double (pos_sub p q0)
+       | XO q0 -> succ_double (pos_sub p q0)
        | XH -> Zpos (XO p))
     | XO p ->
       (match y with
-       | XI q -> pred_double (pos_sub p q)
-       | XO q -> double (pos_sub p q)
+       | XI q0 -> pred_double (pos_sub p q0)
+       | XO q0 -> double (pos_sub p q0)
        | XH -> Zpos (Pos.pred_double p))
     | XH ->
       (match y with
-       | XI q -> Zneg (XO q)
-       | XO q -> Zneg (Pos.pred_double q)
+       | XI q0 -> Zneg (XO q0)
+       | XO q0 -> Zneg (Pos.pred_double q0)
        | XH -> Z0)
 
   (** val add : z -> z -> z **)
@@ -381,12 +438,33 @@ module Z =
        | Zneg y' -> compOpp (Pos.compare x' y')
        | _ -> Lt)
 
+  (** val leb : z -> z -> bool **)
+
+  let leb x y =
+    match compare x y with
+    | Gt -> false
+    | _ -> true
+
   (** val ltb : z -> z -> bool **)
 
   let ltb x y =
     match compare x y with
     | Lt -> true
     | _ -> false
+
+  (** val eqb : z -> z -> bool **)
+
+  let eqb x y =
+    match x with
+    | Z0 -> (match y with
+             | Z0 -> true
+             | _ -> false)
+    | Zpos p -> (match y with
+                 | Zpos q0 -> Pos.eqb p q0
+                 | _ -> false)
+    | Zneg p -> (match y with
+                 | Zneg q0 -> Pos.eqb p q0
+                 | _ -> false)
 
   (** val to_nat : z -> nat **)
 
@@ -399,7 +477,20 @@ module Z =
   let of_nat = function
   | O -> Z0
   | S n0 -> Zpos (Pos.of_succ_nat n0)
+
+  (** val to_pos : z -> positive **)
+
+  let to_pos = function
+  | Zpos p -> p
+  | _ -> XH
  end
+
+type q = { qnum : z; qden : positive }
+
+(** val qle_bool : q -> q -> bool **)
+
+let qle_bool x y =
+  Z.leb (Z.mul x.qnum (Zpos y.qden)) (Z.mul y.qnum (Zpos x.qden))
 
 type sx =
 | SZ of z
@@ -451,6 +542,44 @@ let dlist f = function
 | SZ _ -> None
 | SL l -> opt_all (map f l)
 
+(** val dq : sx -> q option **)
+
+let dq = function
+| SZ _ -> None
+| SL l ->
+  (match l with
+   | [] -> None
+   | s0 :: l0 ->
+     (match s0 with
+      | SZ n ->
+        (match l0 with
+         | [] -> None
+         | s1 :: l1 ->
+           (match s1 with
+            | SZ d ->
+              (match l1 with
+               | [] ->
+                 if Z.ltb Z0 d
+                 then Some { qnum = n; qden = (Z.to_pos d) }
+                 else None
+               | _ :: _ -> None)
+            | SL _ -> None))
+      | SL _ -> None))
+
+(** val dopt : (sx -> 'a1 option) -> sx -> 'a1 option option **)
+
+let dopt f = function
+| SZ _ -> None
+| SL l ->
+  (match l with
+   | [] -> Some None
+   | x :: l0 ->
+     (match l0 with
+      | [] -> (match f x with
+               | Some v -> Some (Some v)
+               | None -> None)
+      | _ :: _ -> None))
+
 (** val ez : z -> sx **)
 
 let ez z0 =
@@ -499,6 +628,28 @@ let rec insert_uniq i l = match l with
 
 let sort_uniq l =
   fold_right insert_uniq [] l
+
+(** val slice : 'a1 list -> nat -> nat -> 'a1 list **)
+
+let slice l pos end_ =
+  firstn (sub end_ pos) (skipn pos l)
+
+(** val where_from : nat -> bool list -> nat list **)
+
+let rec where_from i = function
+| [] -> []
+| b :: t -> if b then i :: (where_from (S i) t) else where_from (S i) t
+
+(** val where_true : bool list -> nat list **)
+
+let where_true l =
+  where_from O l
+
+(** val ntrue : bool list -> nat **)
+
+let rec ntrue = function
+| [] -> O
+| b :: t -> add (if b then S O else O) (ntrue t)
 
 type err =
 | ValueError
@@ -726,7 +877,7 @@ let dtransform = function
 (** val run_op : st -> sx -> st * sx **)
 
 let run_op s o =
-  let keep = fun out -> (s, out) in
+  let keep = fun out0 -> (s, out0) in
   (match o with
    | SZ _ -> keep sx_fail
    | SL l ->
@@ -822,10 +973,10 @@ let run_op s o =
                               | Some kk ->
                                 (match nth_error s.s_iters kk with
                                  | Some it ->
-                                   let (it', out) = iter_next s.s_store it in
+                                   let (it', out0) = iter_next s.s_store it in
                                    ({ s_store = s.s_store; s_iters =
                                    (upd s.s_iters kk it') },
-                                   (match out with
+                                   (match out0 with
                                     | Yield (i, r) ->
                                       SL ((SZ
                                         Z0) :: ((enat i) :: ((erow r) :: [])))
@@ -888,7 +1039,7 @@ let run_op s o =
 
 let rec run_ops s = function
 | [] -> []
-| o :: t -> let (s', out) = run_op s o in out :: (run_ops s' t)
+| o :: t -> let (s', out0) = run_op s o in out0 :: (run_ops s' t)
 
 (** val run_C13 : sx -> sx **)
 
@@ -911,3 +1062,952 @@ let run_C13 = function
                  SL (run_ops { s_store = (init cc); s_iters = [] } ops)
                | None -> sx_fail)
             | _ :: _ -> sx_fail))))
+
+type call =
+| CAsk
+| CAskDqd
+| CTell
+| CTellDqd
+
+type add_mode =
+| Batch
+| Single
+
+(** val call_eqb : call -> call -> bool **)
+
+let call_eqb a b =
+  match a with
+  | CAsk -> (match b with
+             | CAsk -> true
+             | _ -> false)
+  | CAskDqd -> (match b with
+                | CAskDqd -> true
+                | _ -> false)
+  | CTell -> (match b with
+              | CTell -> true
+              | _ -> false)
+  | CTellDqd -> (match b with
+                 | CTellDqd -> true
+                 | _ -> false)
+
+(** val last_is : call option -> call -> bool **)
+
+let last_is l c =
+  match l with
+  | Some d -> call_eqb d c
+  | None -> false
+
+type 'v column = 'v list option
+
+(** val slice_col : nat -> nat -> 'a1 column -> 'a1 column **)
+
+let slice_col pos end_ c =
+  option_map (fun l -> slice l pos end_) c
+
+(** val row_at : nat -> 'a1 column list -> 'a1 option list **)
+
+let row_at i data0 =
+  map (fun c -> match c with
+                | Some l -> nth_error l i
+                | None -> None) data0
+
+type 'v aevent =
+| AddBatch of 'v column list
+| AddSingle of 'v option list
+
+type ('v, 'f) told = { t_data : 'v column list; t_jac : 'v list option;
+                       t_info : 'f list }
+
+type ('v, 'f) eevent =
+| Asked of bool * 'v list
+| Told of bool * ('v, 'f) told
+
+type ('v, 'f) sched = { last_called : call option; cur : 'v list;
+                        num_emitted : nat list; arch : 'v aevent list;
+                        rarch : 'v aevent list option; mode : add_mode;
+                        elog : ('v, 'f) eevent list list }
+
+(** val sched_init : nat -> add_mode -> bool -> ('a1, 'a2) sched **)
+
+let sched_init n_emitters0 m with_result =
+  { last_called = None; cur = []; num_emitted = (repeat O n_emitters0);
+    arch = []; rarch = (if with_result then Some [] else None); mode = m;
+    elog = (repeat [] n_emitters0) }
+
+(** val n_emitters : ('a1, 'a2) sched -> nat **)
+
+let n_emitters s =
+  length s.elog
+
+(** val push :
+    ('a1, 'a2) eevent list list -> nat -> ('a1, 'a2) eevent -> ('a1, 'a2)
+    eevent list list **)
+
+let push el i e =
+  upd el i (app (nth i el []) (e :: []))
+
+(** val push_all :
+    ('a1, 'a2) eevent list list -> (nat * ('a1, 'a2) eevent) list -> ('a1,
+    'a2) eevent list list **)
+
+let push_all el evs =
+  fold_left (fun el0 ie -> push el0 (fst ie) (snd ie)) evs el
+
+(** val set_all : nat list -> (nat * nat) list -> nat list **)
+
+let set_all nums kvs =
+  fold_left (fun m kv -> upd m (fst kv) (snd kv)) kvs nums
+
+(** val ask_route :
+    bool -> nat list -> (nat -> 'a1 list) -> nat list -> ('a1, 'a2) eevent
+    list list -> ('a1 list * nat list) * ('a1, 'a2) eevent list list **)
+
+let ask_route dqd idxs resp nums el =
+  let sols = map (fun i -> (i, (resp i))) idxs in
+  (((concat (map snd sols)),
+  (set_all nums (map (fun p -> ((fst p), (length (snd p)))) sols))),
+  (push_all el (map (fun p -> ((fst p), (Asked (dqd, (snd p))))) sols)))
+
+(** val mk_told :
+    nat -> nat -> 'a1 column list -> 'a1 list option -> 'a2 list -> ('a1,
+    'a2) told **)
+
+let mk_told pos end_ data0 jac info =
+  { t_data = (map (slice_col pos end_) data0); t_jac =
+    (option_map (fun j -> slice j pos end_) jac); t_info =
+    (slice info pos end_) }
+
+(** val deliveries :
+    nat list -> nat list -> nat -> 'a1 column list -> 'a1 list option -> 'a2
+    list -> (nat * ('a1, 'a2) told) list **)
+
+let rec deliveries idxs nums pos data0 jac info =
+  match idxs with
+  | [] -> []
+  | i :: t ->
+    let n = nth i nums O in
+    let end_ = add pos n in
+    (i,
+    (mk_told pos end_ data0 jac info)) :: (deliveries t nums end_ data0 jac
+                                            info)
+
+(** val lens_ok : nat -> 'a1 column list -> bool **)
+
+let lens_ok n data0 =
+  forallb (fun c ->
+    match c with
+    | Some l -> Nat.eqb (length l) n
+    | None -> true) data0
+
+(** val app_event :
+    'a1 aevent list -> 'a1 aevent list option -> 'a1 aevent -> 'a1 aevent
+    list * 'a1 aevent list option **)
+
+let app_event a r e =
+  ((app a (e :: [])), (option_map (fun l -> app l (e :: [])) r))
+
+(** val single_loop :
+    'a1 column list -> (nat -> 'a2) -> nat option -> nat list -> 'a1 aevent
+    list -> 'a1 aevent list option -> 'a2 list -> ('a1 aevent list * 'a1
+    aevent list option) * 'a2 list result **)
+
+let rec single_loop data0 fb fail is a r info =
+  match is with
+  | [] -> ((a, r), (Ok info))
+  | i :: t ->
+    (match fail with
+     | Some k ->
+       if Nat.eqb i k
+       then ((a, r), (Err ValueError))
+       else let (a', r') = app_event a r (AddSingle (row_at i data0)) in
+            single_loop data0 fb fail t a' r' (app info ((fb i) :: []))
+     | None ->
+       let (a', r') = app_event a r (AddSingle (row_at i data0)) in
+       single_loop data0 fb fail t a' r' (app info ((fb i) :: [])))
+
+(** val add_to_archives :
+    add_mode -> nat -> 'a1 column list -> (nat -> 'a2) -> nat option -> 'a1
+    aevent list -> 'a1 aevent list option -> ('a1 aevent list * 'a1 aevent
+    list option) * 'a2 list result **)
+
+let add_to_archives m n data0 fb fail a r =
+  match m with
+  | Batch ->
+    (match fail with
+     | Some _ -> ((a, r), (Err ValueError))
+     | None -> ((app_event a r (AddBatch data0)), (Ok (map fb (seq O n)))))
+  | Single -> single_loop data0 fb fail (seq O n) a r []
+
+type ('v, 'f) tell_args = { ta_data : 'v column list; ta_jac : 'v list;
+                            ta_fb : (nat -> 'f); ta_fail : nat option }
+
+type 'v out =
+| ORows of 'v list
+| ONone
+
+(** val ask_call : bool -> call **)
+
+let ask_call = function
+| true -> CAskDqd
+| false -> CAsk
+
+(** val tell_call : bool -> call **)
+
+let tell_call = function
+| true -> CTellDqd
+| false -> CTell
+
+(** val ask_gen :
+    bool -> ('a1, 'a2) sched -> (nat -> 'a1 list) -> ('a1, 'a2) sched * 'a1
+    out result **)
+
+let ask_gen dqd s resp =
+  if (||) (last_is s.last_called CAsk) (last_is s.last_called CAskDqd)
+  then (s, (Err RuntimeError))
+  else let (p, el) =
+         ask_route dqd (seq O (n_emitters s)) resp s.num_emitted s.elog
+       in
+       let (sols, nums) = p in
+       ({ last_called = (Some (ask_call dqd)); cur = sols; num_emitted =
+       nums; arch = s.arch; rarch = s.rarch; mode = s.mode; elog = el }, (Ok
+       (ORows sols)))
+
+(** val tell_gen :
+    bool -> ('a1, 'a2) sched -> ('a1, 'a2) tell_args -> ('a1, 'a2)
+    sched * 'a1 out result **)
+
+let tell_gen dqd s a =
+  if negb (last_is s.last_called (ask_call dqd))
+  then (s, (Err RuntimeError))
+  else let lc = Some (tell_call dqd) in
+       let keep = { last_called = lc; cur = s.cur; num_emitted =
+         s.num_emitted; arch = s.arch; rarch = s.rarch; mode = s.mode; elog =
+         s.elog }
+       in
+       let n = length s.cur in
+       if negb (lens_ok n a.ta_data)
+       then (keep, (Err ValueError))
+       else let data0 = app a.ta_data ((Some s.cur) :: []) in
+            if (&&) dqd (negb (Nat.eqb (length a.ta_jac) n))
+            then (keep, (Err ValueError))
+            else let (p, r) =
+                   add_to_archives s.mode n data0 a.ta_fb a.ta_fail s.arch
+                     s.rarch
+                 in
+                 let (ar, rr) = p in
+                 (match r with
+                  | Ok info ->
+                    let ds =
+                      deliveries (seq O (n_emitters s)) s.num_emitted O data0
+                        (if dqd then Some a.ta_jac else None) info
+                    in
+                    ({ last_called = lc; cur = s.cur; num_emitted =
+                    s.num_emitted; arch = ar; rarch = rr; mode = s.mode;
+                    elog =
+                    (push_all s.elog
+                      (map (fun d -> ((fst d), (Told (dqd, (snd d))))) ds)) },
+                    (Ok ONone))
+                  | Err e ->
+                    ({ last_called = lc; cur = s.cur; num_emitted =
+                      s.num_emitted; arch = ar; rarch = rr; mode = s.mode;
+                      elog = s.elog }, (Err e)))
+
+type ('v, 'f) sop =
+| OpAsk of (nat -> 'v list)
+| OpAskDqd of (nat -> 'v list)
+| OpTell of ('v, 'f) tell_args
+| OpTellDqd of ('v, 'f) tell_args
+
+(** val sched_step :
+    ('a1, 'a2) sched -> ('a1, 'a2) sop -> ('a1, 'a2) sched * 'a1 out result **)
+
+let sched_step s = function
+| OpAsk resp -> ask_gen false s resp
+| OpAskDqd resp -> ask_gen true s resp
+| OpTell a -> tell_gen false s a
+| OpTellDqd a -> tell_gen true s a
+
+(** val dany : sx -> sx option **)
+
+let dany s =
+  Some s
+
+(** val eany : sx -> sx **)
+
+let eany s =
+  s
+
+(** val dcol : sx -> sx column option **)
+
+let dcol = function
+| SZ _ -> None
+| SL l0 ->
+  (match l0 with
+   | [] -> Some None
+   | s0 :: l1 ->
+     (match s0 with
+      | SZ _ -> None
+      | SL l -> (match l1 with
+                 | [] -> Some (Some l)
+                 | _ :: _ -> None)))
+
+(** val ecol : sx column -> sx **)
+
+let ecol = function
+| Some l -> SL ((SL l) :: [])
+| None -> SL []
+
+(** val dresp : sx -> (nat -> sx list) option **)
+
+let dresp s =
+  match dlist (dlist dany) s with
+  | Some ls -> Some (fun i -> nth i ls [])
+  | None -> None
+
+(** val dtell : sx -> sx -> sx -> sx -> (sx, sx) tell_args option **)
+
+let dtell data0 jac fbs fail =
+  match dlist dcol data0 with
+  | Some d ->
+    (match dlist dany jac with
+     | Some j ->
+       (match dlist dany fbs with
+        | Some f ->
+          (match dopt dnat fail with
+           | Some fl ->
+             Some { ta_data = d; ta_jac = j; ta_fb = (fun k ->
+               nth k f sx_fail); ta_fail = fl }
+           | None -> None)
+        | None -> None)
+     | None -> None)
+  | None -> None
+
+(** val dsop : sx -> (sx, sx) sop option **)
+
+let dsop = function
+| SZ _ -> None
+| SL l ->
+  (match l with
+   | [] -> None
+   | s0 :: l0 ->
+     (match s0 with
+      | SZ z0 ->
+        (match z0 with
+         | Z0 ->
+           (match l0 with
+            | [] -> None
+            | r :: l1 ->
+              (match l1 with
+               | [] -> option_map (fun x -> OpAsk x) (dresp r)
+               | _ :: _ -> None))
+         | Zpos p ->
+           (match p with
+            | XI p0 ->
+              (match p0 with
+               | XH ->
+                 (match l0 with
+                  | [] -> None
+                  | d :: l1 ->
+                    (match l1 with
+                     | [] -> None
+                     | j :: l2 ->
+                       (match l2 with
+                        | [] -> None
+                        | f :: l3 ->
+                          (match l3 with
+                           | [] -> None
+                           | fl :: l4 ->
+                             (match l4 with
+                              | [] ->
+                                option_map (fun x -> OpTellDqd x)
+                                  (dtell d j f fl)
+                              | _ :: _ -> None)))))
+               | _ -> None)
+            | XO p0 ->
+              (match p0 with
+               | XH ->
+                 (match l0 with
+                  | [] -> None
+                  | d :: l1 ->
+                    (match l1 with
+                     | [] -> None
+                     | f :: l2 ->
+                       (match l2 with
+                        | [] -> None
+                        | fl :: l3 ->
+                          (match l3 with
+                           | [] ->
+                             option_map (fun x -> OpTell x)
+                               (dtell d (SL []) f fl)
+                           | _ :: _ -> None))))
+               | _ -> None)
+            | XH ->
+              (match l0 with
+               | [] -> None
+               | r :: l1 ->
+                 (match l1 with
+                  | [] -> option_map (fun x -> OpAskDqd x) (dresp r)
+                  | _ :: _ -> None)))
+         | Zneg _ -> None)
+      | SL _ -> None))
+
+(** val eout : sx out result -> sx **)
+
+let eout = function
+| Ok a ->
+  (match a with
+   | ORows rows0 -> SL ((SZ Z0) :: ((SL rows0) :: []))
+   | ONone -> SL ((SZ Z0) :: []))
+| Err e -> SL ((SZ (err_code e)) :: [])
+
+(** val etold : (sx, sx) told -> sx **)
+
+let etold t =
+  SL ((elist ecol t.t_data) :: ((eopt (fun j -> SL j) t.t_jac) :: ((SL
+    t.t_info) :: [])))
+
+(** val eeevent : (sx, sx) eevent -> sx **)
+
+let eeevent = function
+| Asked (dqd, rows0) -> SL ((SZ Z0) :: ((ebool dqd) :: ((SL rows0) :: [])))
+| Told (dqd, t) -> SL ((SZ (Zpos XH)) :: ((ebool dqd) :: ((etold t) :: [])))
+
+(** val eaevent : sx aevent -> sx **)
+
+let eaevent = function
+| AddBatch data0 -> SL ((SZ Z0) :: ((elist ecol data0) :: []))
+| AddSingle row -> SL ((SZ (Zpos XH)) :: ((elist (eopt eany) row) :: []))
+
+(** val ecall : call option -> sx **)
+
+let ecall = function
+| Some c0 ->
+  (match c0 with
+   | CAsk -> SZ (Zpos XH)
+   | CAskDqd -> SZ (Zpos (XO XH))
+   | CTell -> SZ (Zpos (XI XH))
+   | CTellDqd -> SZ (Zpos (XO (XO XH))))
+| None -> SZ Z0
+
+(** val esizes : (sx, sx) sched -> sx **)
+
+let esizes s =
+  SL
+    ((elist (fun l -> enat (length l)) s.elog) :: ((enat (length s.arch)) :: (
+    (eopt (fun l -> enat (length l)) s.rarch) :: ((ecall s.last_called) :: []))))
+
+(** val estate : (sx, sx) sched -> sx **)
+
+let estate s =
+  SL
+    ((elist (elist eeevent) s.elog) :: ((elist eaevent s.arch) :: ((eopt
+                                                                    (elist
+                                                                    eaevent)
+                                                                    s.rarch) :: (
+    (ecall s.last_called) :: ((elist enat s.num_emitted) :: [])))))
+
+(** val run_sops : (sx, sx) sched -> sx list -> sx list * sx **)
+
+let rec run_sops s = function
+| [] -> ([], (estate s))
+| o :: t ->
+  (match dsop o with
+   | Some op ->
+     let (s', r) = sched_step s op in
+     let (outs, fin) = run_sops s' t in
+     (((SL ((eout r) :: ((esizes s') :: []))) :: outs), fin)
+   | None -> ((sx_fail :: []), (estate s)))
+
+(** val run_C04 : sx -> sx **)
+
+let run_C04 = function
+| SZ _ -> sx_fail
+| SL l ->
+  (match l with
+   | [] -> sx_fail
+   | n :: l0 ->
+     (match l0 with
+      | [] -> sx_fail
+      | m :: l1 ->
+        (match l1 with
+         | [] -> sx_fail
+         | wr :: l2 ->
+           (match l2 with
+            | [] -> sx_fail
+            | s :: l3 ->
+              (match s with
+               | SZ _ -> sx_fail
+               | SL ops ->
+                 (match l3 with
+                  | [] ->
+                    (match dnat n with
+                     | Some nn ->
+                       (match dbool m with
+                        | Some mm ->
+                          (match dbool wr with
+                           | Some ww ->
+                             let (outs, fin) =
+                               run_sops
+                                 (sched_init nn
+                                   (if mm then Single else Batch) ww) ops
+                             in
+                             SL ((SL outs) :: (fin :: []))
+                           | None -> sx_fail)
+                        | None -> sx_fail)
+                     | None -> sx_fail)
+                  | _ :: _ -> sx_fail))))))
+
+type reselect_mode =
+| Terminated
+| AllActive
+
+type key =
+| KInf
+| KFin of q
+| KUndef
+
+(** val key_geb : key -> key -> bool **)
+
+let key_geb a b =
+  match a with
+  | KInf -> true
+  | KFin x ->
+    (match b with
+     | KInf -> false
+     | KFin y -> qle_bool y x
+     | KUndef -> true)
+  | KUndef -> (match b with
+               | KUndef -> true
+               | _ -> false)
+
+(** val better : key -> key -> bool **)
+
+let better a b =
+  match a with
+  | KInf -> (match b with
+             | KInf -> false
+             | _ -> true)
+  | KFin x -> (match b with
+               | KFin y -> negb (qle_bool x y)
+               | _ -> false)
+  | KUndef -> false
+
+(** val map2 : ('a1 -> 'a2 -> 'a3) -> 'a1 list -> 'a2 list -> 'a3 list **)
+
+let rec map2 f la lb =
+  match la with
+  | [] -> []
+  | a :: ta -> (match lb with
+                | [] -> []
+                | b :: tb -> (f a b) :: (map2 f ta tb))
+
+(** val ucb_keys : nat list -> (nat -> q option) -> key list **)
+
+let ucb_keys selection0 scores =
+  map (fun i ->
+    if Nat.eqb (nth i selection0 O) O
+    then KInf
+    else (match scores i with
+          | Some q0 -> KFin q0
+          | None -> KUndef)) (seq O (length selection0))
+
+(** val valid_selection :
+    nat -> bool list -> key list -> bool list -> bool **)
+
+let valid_selection num_active0 kept keys chosen =
+  let n = length kept in
+  (&&)
+    ((&&)
+      ((&&) (Nat.eqb (length chosen) n) (Nat.eqb (ntrue chosen) num_active0))
+      (forallb (fun i -> implb (nth i kept false) (nth i chosen false))
+        (seq O n)))
+    (forallb (fun i ->
+      forallb (fun j ->
+        implb
+          ((&&) ((&&) (nth i chosen false) (negb (nth i kept false)))
+            (negb (nth j chosen false)))
+          (negb (better (nth j keys KUndef) (nth i keys KUndef)))) (seq O n))
+      (seq O n))
+
+(** val insert_desc : key list -> nat -> nat list -> nat list **)
+
+let rec insert_desc keys i l = match l with
+| [] -> i :: []
+| j :: t ->
+  if key_geb (nth i keys KUndef) (nth j keys KUndef)
+  then i :: l
+  else j :: (insert_desc keys i t)
+
+(** val argsort_desc : key list -> nat list **)
+
+let argsort_desc keys =
+  fold_right (insert_desc keys) [] (seq O (length keys))
+
+(** val activate_loop : nat list -> bool list -> nat -> nat -> bool list **)
+
+let rec activate_loop order act cur_active num_active0 =
+  match order with
+  | [] -> act
+  | i :: t ->
+    if Nat.leb num_active0 cur_active
+    then act
+    else if nth i act false
+         then activate_loop t act cur_active num_active0
+         else activate_loop t (upd act i true) (S cur_active) num_active0
+
+(** val select : nat -> bool list -> key list -> bool list **)
+
+let select num_active0 kept keys =
+  activate_loop (argsort_desc keys) kept (ntrue kept) num_active0
+
+(** val fill : nat -> bool list -> bool list -> bool list * bool list **)
+
+let rec fill needed resel act =
+  match needed with
+  | O -> (resel, act)
+  | S m ->
+    (match resel with
+     | [] -> (resel, act)
+     | _ :: rt ->
+       (match act with
+        | [] -> (resel, act)
+        | a :: at_ ->
+          let (rt', at') = fill (if a then S m else m) rt at_ in
+          ((false :: rt'), (true :: at'))))
+
+(** val deactivate : bool list -> bool list -> bool list **)
+
+let deactivate act resel =
+  map2 (fun a r -> (&&) a (negb r)) act resel
+
+type ('v, 'f) bandit = { core : ('v, 'f) sched; active : bool list;
+                         success : nat list; selection : nat list;
+                         restarts : z list; num_active : nat;
+                         reselect : reselect_mode }
+
+(** val pool : ('a1, 'a2) bandit -> nat **)
+
+let pool s =
+  length s.active
+
+(** val bandit_init :
+    nat -> nat -> reselect_mode -> add_mode -> bool -> ('a1, 'a2) bandit **)
+
+let bandit_init n_pool k rm m with_result =
+  { core = (sched_init n_pool m with_result); active = (repeat false n_pool);
+    success = (repeat O n_pool); selection = (repeat O n_pool); restarts =
+    (repeat Z0 n_pool); num_active = k; reselect = rm }
+
+(** val ask_pre :
+    ('a1, 'a2) bandit -> (nat -> z) -> (bool list * bool list) * z list **)
+
+let ask_pre s rin =
+  let (resel0, restarts') =
+    match s.reselect with
+    | Terminated ->
+      let er = map rin (seq O (pool s)) in
+      ((map2 (fun e r -> (||) (Z.ltb r e) (Z.ltb e Z0)) er s.restarts), er)
+    | AllActive -> (s.active, s.restarts)
+  in
+  let (resel, act1) = fill (sub s.num_active (ntrue s.active)) resel0 s.active
+  in
+  ((resel, (deactivate act1 resel)), restarts')
+
+(** val bandit_ask :
+    ('a1, 'a2) bandit -> (nat -> z) -> (nat -> q option) -> bool list -> (nat
+    -> 'a1 list) -> ('a1, 'a2) bandit * 'a1 out result **)
+
+let bandit_ask s rin scores chosen resp =
+  let c = s.core in
+  if last_is c.last_called CAsk
+  then (s, (Err RuntimeError))
+  else let (p, restarts') = ask_pre s rin in
+       let (resel, kept) = p in
+       let act' =
+         if existsb (fun b -> b) resel
+         then let keys = ucb_keys s.selection scores in
+              if valid_selection s.num_active kept keys chosen
+              then chosen
+              else select s.num_active kept keys
+         else kept
+       in
+       let (p0, el) =
+         ask_route false (where_true act') resp c.num_emitted c.elog
+       in
+       let (sols, nums) = p0 in
+       ({ core = { last_called = (Some CAsk); cur = sols; num_emitted = nums;
+       arch = c.arch; rarch = c.rarch; mode = c.mode; elog = el }; active =
+       act'; success = s.success; selection = s.selection; restarts =
+       restarts'; num_active = s.num_active; reselect = s.reselect }, (Ok
+       (ORows sols)))
+
+(** val count_nz : ('a1 -> bool) -> 'a1 list -> nat **)
+
+let count_nz status_nz info =
+  length (filter status_nz info)
+
+(** val credit :
+    ('a2 -> bool) -> (nat * ('a1, 'a2) told) list -> nat list -> nat list ->
+    nat list -> nat list * nat list **)
+
+let rec credit status_nz ds nums sel suc =
+  match ds with
+  | [] -> (sel, suc)
+  | p :: rest ->
+    let (i, t) = p in
+    credit status_nz rest nums (upd sel i (add (nth i sel O) (nth i nums O)))
+      (upd suc i (add (nth i suc O) (count_nz status_nz t.t_info)))
+
+(** val bandit_tell :
+    ('a2 -> bool) -> ('a1, 'a2) bandit -> ('a1, 'a2) tell_args -> ('a1, 'a2)
+    bandit * 'a1 out result **)
+
+let bandit_tell status_nz s a =
+  let c = s.core in
+  if negb (last_is c.last_called CAsk)
+  then (s, (Err RuntimeError))
+  else let lc = Some CTell in
+       let with_core = fun c' -> { core = c'; active = s.active; success =
+         s.success; selection = s.selection; restarts = s.restarts;
+         num_active = s.num_active; reselect = s.reselect }
+       in
+       let n = length c.cur in
+       if negb (lens_ok n a.ta_data)
+       then ((with_core { last_called = lc; cur = c.cur; num_emitted =
+               c.num_emitted; arch = c.arch; rarch = c.rarch; mode = c.mode;
+               elog = c.elog }), (Err ValueError))
+       else let data0 = app a.ta_data ((Some c.cur) :: []) in
+            let (p, r) =
+              add_to_archives c.mode n data0 a.ta_fb a.ta_fail c.arch c.rarch
+            in
+            let (ar, rr) = p in
+            (match r with
+             | Ok info ->
+               let ds =
+                 deliveries (where_true s.active) c.num_emitted O data0 None
+                   info
+               in
+               let (sel, suc) =
+                 credit status_nz ds c.num_emitted s.selection s.success
+               in
+               ({ core = { last_called = lc; cur = c.cur; num_emitted =
+               c.num_emitted; arch = ar; rarch = rr; mode = c.mode; elog =
+               (push_all c.elog
+                 (map (fun d -> ((fst d), (Told (false, (snd d))))) ds)) };
+               active = s.active; success = suc; selection = sel; restarts =
+               s.restarts; num_active = s.num_active; reselect =
+               s.reselect }, (Ok ONone))
+             | Err e ->
+               ((with_core { last_called = lc; cur = c.cur; num_emitted =
+                  c.num_emitted; arch = ar; rarch = rr; mode = c.mode; elog =
+                  c.elog }), (Err e)))
+
+type ('v, 'f) bop =
+| BAsk of (nat -> z) * (nat -> q option) * bool list * (nat -> 'v list)
+| BTell of ('v, 'f) tell_args
+| BAskDqd
+| BTellDqd
+
+(** val bandit_step :
+    ('a2 -> bool) -> ('a1, 'a2) bandit -> ('a1, 'a2) bop -> ('a1, 'a2)
+    bandit * 'a1 out result **)
+
+let bandit_step status_nz s = function
+| BAsk (rin, scores, chosen, resp) -> bandit_ask s rin scores chosen resp
+| BTell a -> bandit_tell status_nz s a
+| _ -> (s, (Err OtherError))
+
+(** val status_nz_sx : sx -> bool **)
+
+let status_nz_sx = function
+| SZ _ -> false
+| SL l ->
+  (match l with
+   | [] -> false
+   | s :: _ -> (match s with
+                | SZ st0 -> negb (Z.eqb st0 Z0)
+                | SL _ -> false))
+
+type bstate = (sx, sx) bandit
+
+(** val dbop : sx -> (sx, sx) bop option **)
+
+let dbop = function
+| SZ _ -> None
+| SL l ->
+  (match l with
+   | [] -> None
+   | s0 :: l0 ->
+     (match s0 with
+      | SZ z0 ->
+        (match z0 with
+         | Z0 ->
+           (match l0 with
+            | [] -> None
+            | rin :: l1 ->
+              (match l1 with
+               | [] -> None
+               | sc :: l2 ->
+                 (match l2 with
+                  | [] -> None
+                  | ch :: l3 ->
+                    (match l3 with
+                     | [] -> None
+                     | r :: l4 ->
+                       (match l4 with
+                        | [] ->
+                          (match dlist dz rin with
+                           | Some ri ->
+                             (match dlist (dopt dq) sc with
+                              | Some scs ->
+                                (match dlist dbool ch with
+                                 | Some chosen ->
+                                   (match dresp r with
+                                    | Some resp ->
+                                      Some (BAsk ((fun i ->
+                                        nth i ri (Zneg XH)), (fun i ->
+                                        nth i scs None), chosen, resp))
+                                    | None -> None)
+                                 | None -> None)
+                              | None -> None)
+                           | None -> None)
+                        | _ :: _ -> None)))))
+         | Zpos p ->
+           (match p with
+            | XI p0 ->
+              (match p0 with
+               | XH -> (match l0 with
+                        | [] -> Some BTellDqd
+                        | _ :: _ -> None)
+               | _ -> None)
+            | XO p0 ->
+              (match p0 with
+               | XH ->
+                 (match l0 with
+                  | [] -> None
+                  | d :: l1 ->
+                    (match l1 with
+                     | [] -> None
+                     | f :: l2 ->
+                       (match l2 with
+                        | [] -> None
+                        | fl :: l3 ->
+                          (match l3 with
+                           | [] ->
+                             option_map (fun x -> BTell x)
+                               (dtell d (SL []) f fl)
+                           | _ :: _ -> None))))
+               | _ -> None)
+            | XH -> (match l0 with
+                     | [] -> Some BAskDqd
+                     | _ :: _ -> None))
+         | Zneg _ -> None)
+      | SL _ -> None))
+
+(** val ebstate : bstate -> sx **)
+
+let ebstate s =
+  SL
+    ((estate s.core) :: ((elist ebool s.active) :: ((elist enat s.selection) :: (
+    (elist enat s.success) :: ((elist ez s.restarts) :: [])))))
+
+(** val ask_diag : bstate -> (sx, sx) bop -> bstate -> sx * bool **)
+
+let ask_diag s o s' =
+  match o with
+  | BAsk (rin, scores, chosen, _) ->
+    if last_is s.core.last_called CAsk
+    then ((SL []), true)
+    else let (p, _) = ask_pre s rin in
+         let (resel, kept) = p in
+         let any = existsb (fun b -> b) resel in
+         let keys = ucb_keys s.selection scores in
+         let ok =
+           if any
+           then valid_selection s.num_active kept keys chosen
+           else (&&)
+                  (forallb (fun p0 -> eqb (fst p0) (snd p0))
+                    (combine kept chosen))
+                  (Nat.eqb (length kept) (length chosen))
+         in
+         ((SL
+         ((ebool any) :: ((ebool ok) :: ((elist ebool kept) :: ((elist ebool
+                                                                  (select
+                                                                    s.num_active
+                                                                    kept keys)) :: (
+         (elist ebool s'.active) :: [])))))), ok)
+  | BTell _ ->
+    ((SL ((elist enat s'.selection) :: ((elist enat s'.success) :: []))),
+      true)
+  | _ -> ((SL []), true)
+
+(** val run_bops : bstate -> sx list -> sx list * sx **)
+
+let rec run_bops s = function
+| [] -> ([], (ebstate s))
+| o :: t ->
+  (match dbop o with
+   | Some op ->
+     let (s', r) = bandit_step status_nz_sx s op in
+     let (d, ok) = ask_diag s op s' in
+     if ok
+     then let (outs, fin) = run_bops s' t in
+          (((SL ((eout r) :: (d :: ((esizes s'.core) :: [])))) :: outs), fin)
+     else (((SL ((eout r) :: (d :: ((esizes s'.core) :: [])))) :: []),
+            (ebstate s'))
+   | None -> ((sx_fail :: []), (ebstate s)))
+
+(** val run_C16 : sx -> sx **)
+
+let run_C16 = function
+| SZ _ -> sx_fail
+| SL l ->
+  (match l with
+   | [] -> sx_fail
+   | n :: l0 ->
+     (match l0 with
+      | [] -> sx_fail
+      | k :: l1 ->
+        (match l1 with
+         | [] -> sx_fail
+         | rm :: l2 ->
+           (match l2 with
+            | [] -> sx_fail
+            | m :: l3 ->
+              (match l3 with
+               | [] -> sx_fail
+               | wr :: l4 ->
+                 (match l4 with
+                  | [] -> sx_fail
+                  | s :: l5 ->
+                    (match s with
+                     | SZ _ -> sx_fail
+                     | SL ops ->
+                       (match l5 with
+                        | [] ->
+                          (match dnat n with
+                           | Some nn ->
+                             (match dnat k with
+                              | Some kk ->
+                                (match dbool rm with
+                                 | Some rr ->
+                                   (match dbool m with
+                                    | Some mm ->
+                                      (match dbool wr with
+                                       | Some ww ->
+                                         let (outs, fin) =
+                                           run_bops
+                                             (bandit_init nn kk
+                                               (if rr
+                                                then AllActive
+                                                else Terminated)
+                                               (if mm then Single else Batch)
+                                               ww) ops
+                                         in
+                                         SL ((SL outs) :: (fin :: []))
+                                       | None -> sx_fail)
+                                    | None -> sx_fail)
+                                 | None -> sx_fail)
+                              | None -> sx_fail)
+                           | None -> sx_fail)
+                        | _ :: _ -> sx_fail))))))))
